@@ -339,6 +339,68 @@ func runGenericWide(cs GenCase) string {
 }
 
 // ---------------------------------------------------------------------------------------------
+// the struct named through a typed nil pointer: Struct((*T)(nil))
+
+// NilInstCase is the replay artefact.
+type NilInstCase struct {
+	NilInstance bool   `json:"nil_instance"`
+	Which       string `json:"which"` // deposit-return | deposit-apply | lowA | both
+}
+
+// runNilInstance: a typed nil pointer names the type as well as any instance does. The method is
+// replaced for every instance, the other method is untouched, Reset restores everything.
+func runNilInstance(cs NilInstCase) string {
+	b := mocker.Create()
+	defer func() { vk.Try(func() { b.Reset() }) }()
+	acc := &mx.Acc{N: 3}
+	origD, origA, origB := 3+7+200, mx.CallLowA(acc, 7), mx.CallLowB(acc, 7)
+	wantD, wantA := origD, origA
+	seen := -1
+	msg, p := vk.Try(func() {
+		if cs.Which == "deposit-return" || cs.Which == "both" {
+			b.Struct((*mx.Acc)(nil)).Method("Deposit").Return(9100)
+			wantD = 9100
+		}
+		if cs.Which == "deposit-apply" {
+			b.Struct((*mx.Acc)(nil)).Method("Deposit").Apply(func(a *mx.Acc, k int) int { seen = a.N; return 9007 })
+			wantD = 9007
+		}
+		if cs.Which == "lowA" || cs.Which == "both" {
+			b.Struct((*mx.Acc)(nil)).ExportMethod("lowA").As(func(a *mx.Acc, k int) int { return 0 }).Return(9200)
+			wantA = 9200
+		}
+	})
+	if p {
+		return "panic: mocking through Struct((*Acc)(nil)) panicked: " + vk.Short(msg, 120)
+	}
+	check := func(stage string, wd, wa int) string {
+		var gd, ga, gb int
+		if msg, p := vk.Try(func() { gd, ga, gb = mx.CallDeposit(acc, 7), mx.CallLowA(acc, 7), mx.CallLowB(acc, 7) }); p {
+			return fmt.Sprintf("panic: %s: calling the methods panicked: %s", stage, vk.Short(msg, 100))
+		}
+		switch {
+		case gd != wd:
+			return fmt.Sprintf("%s: Deposit(7) returned %d, expected %d", stage, gd, wd)
+		case ga != wa:
+			return fmt.Sprintf("%s: lowA(7) returned %d, expected %d", stage, ga, wa)
+		case gb != origB:
+			return fmt.Sprintf("other-affected: %s: lowB(7) returned %d, it was never mocked (%d)", stage, gb, origB)
+		}
+		return ""
+	}
+	if f := check("not-replaced", wantD, wantA); f != "" {
+		return f
+	}
+	if cs.Which == "deposit-apply" && seen != 3 {
+		return fmt.Sprintf("receiver: the callback saw receiver N=%d, the instance has N=3", seen)
+	}
+	if msg, p := vk.Try(func() { b.Reset() }); p {
+		return "panic: Reset panicked: " + vk.Short(msg, 120)
+	}
+	return check("not-restored", origD, origA)
+}
+
+// ---------------------------------------------------------------------------------------------
 // two types of one printed name ("model.User") in two packages of one name
 
 // DupCase is the replay artefact.
@@ -632,6 +694,24 @@ func extraCases(c *vk.Ctx, base int64) {
 			if f != "" {
 				c.Violate(fmt.Sprintf("generic-receiver method=%s inst=%s how=return class=%s", m, inst, f[:indexByte(f, ':')]), f, cs)
 			}
+		}
+	}
+	for _, which := range []string{"deposit-return", "deposit-apply", "lowA", "both"} {
+		mine := c.Mine(idx)
+		idx++
+		if !mine || c.Full() {
+			continue
+		}
+		cs := NilInstCase{true, which}
+		f := runNilInstance(cs)
+		n++
+		c.Res.Evaluations++
+		c.Res.Traces++
+		c.Res.States++
+		c.Res.Transitions += 8
+		c.Distinct(fmt.Sprint(cs))
+		if f != "" {
+			c.Violate(fmt.Sprintf("nil-instance which=%s class=%s", which, f[:indexByte(f, ':')]), f, cs)
 		}
 	}
 	for _, order := range [][]string{{"v1"}, {"v2"}, {"v1", "v2"}, {"v2", "v1"}, {"v1", "v2", "v1"}, {"v2", "v1", "v2"}} {
